@@ -34,7 +34,7 @@ var raceMode = os.Getenv("VERIF_RACE") != ""
 
 func TestMain(m *testing.M) {
 	kf, _ = known.Load(ev.KnownFile())
-	rec.Rule("generated npm registries served by an in-process fake Insights service (no sockets): packages incl. scoped names (@s/n), versions listed in shuffled order with is_default marks, requirements in all four package.json sections plus bundleDependencies, aliases npm:real@range incl. scoped real names, bundled trees to depth 3 (node_modules/a/node_modules/b paths, bundled copies installed under an alias, bundled packages unknown to the registry); oracle (1) structural: after Requirements(v) every bundled entry is a package with the mangled name, exactly one concrete version with DerivedFrom, required by its bundling parent with a requirement MatchingVersions resolves to exactly that version, and Version/Versions/Requirements/MatchingVersions agree; aliases become requirements on the real name carrying KnownAs; (2) differential: the same data loaded into a LocalClient by the harness (from the generated model, not through the APIClient) resolves with the npm resolver to an isomorphic graph; (3) up to 16 goroutines resolving through one APIClient in a -race binary: no race report and every graph equals the sequential one. One evaluation = one (registry, root). Non-trivial: the root's response has a nested bundle or an alias on a scoped name. Distinct = distinct (registry, root).")
+	rec.Rule("generated npm registries served by an in-process fake Insights service (no sockets): packages incl. scoped names (@s/n), versions listed in shuffled order with is_default marks, requirements in all four package.json sections plus bundleDependencies, aliases npm:real@range incl. scoped real names, bundled trees to depth 3 (node_modules/a/node_modules/b paths, bundled copies installed under an alias, bundled packages unknown to the registry); oracle (1) structural: after Requirements(v) every bundled entry is a package with the mangled name, exactly one concrete version with DerivedFrom, required by its bundling parent with a requirement MatchingVersions resolves to exactly that version, and Version/Versions/Requirements/MatchingVersions agree; aliases become requirements on the real name carrying KnownAs; (2) differential: the same data loaded into a LocalClient by the harness (from the generated model, not through the APIClient) resolves with the npm resolver to an isomorphic graph; (3) up to 16 goroutines resolving through one APIClient in a -race binary: no race report and every graph equals the sequential one. One evaluation = one (registry, root). Non-trivial: the root's response has a nested bundle or an alias on a scoped name. Distinct = distinct (registry, root). The four calls must also agree on a version a bundled package does not have (not found / no match); an alias may be the package's own name.")
 	ev.Main(m, rec)
 }
 
